@@ -13,7 +13,8 @@ def encode_timedelta(obj):
 
 def encode_datetime(obj):
     units, _ = np.datetime_data(obj.dtype)
-    reference = obj[0]
+    # the first element, for any number of dimensions (obj[0] fails for 0-d and is a row for 2-d)
+    reference = obj.reshape(-1)[0]
 
     encoding = {"reference": str(reference), "units": units}
     encoded = (obj - reference).astype("int64").tolist()
